@@ -517,6 +517,24 @@ func checkC08(c *hx.Checker) {
 		expe, erre := ref.Expand(data, tg)
 		add("Expand", nil, []*ref.T{data, ref.I64Vec(tg...)}, expe, erre, true, "op", nil, "large"+fmt.Sprint(tg), "large")
 	}
+	// rows of 64 and more elements behind the axis worked on (row-wise copy paths): Concat along every axis of
+	// (B,S,D), Expand that stretches a leading, a middle, or both kinds of axes
+	for _, sh := range [][]int{{2, 3, 64}, {3, 2, 70}, {2, 2, 2, 65}} {
+		a, b := ref.Distinct(ref.F32, sh), recFill(ref.F32, sh, 77)
+		for ax := 0; ax < len(sh); ax++ {
+			exp, err := ref.Concat([]*ref.T{a, b, a}, ax)
+			add("Concat", []hx.Attr{hx.AInt("axis", int64(ax))}, []*ref.T{a, b, a}, exp, err, true, "op", nil, fmt.Sprintf("long-rows axis=%d", ax), "large", "long-rows")
+		}
+	}
+	for _, et := range [][2][]int{{{2, 1, 70}, {2, 3, 70}}, {{1, 3, 64}, {2, 3, 64}}, {{2, 1, 1, 64}, {2, 3, 2, 64}}, {{3, 1, 70}, {2, 3, 4, 70}}, {{2, 3, 1}, {2, 3, 70}}, {{1, 70}, {3, 2, 70}}, {{2, 3, 70}, {1, 1, 70}}, {{2, 3, 70}, {2, 1, 70}}, {{2, 1, 70}, {1, 3, 1}}} {
+		data := ref.Distinct(ref.F32, et[0])
+		tg := make([]int64, len(et[1]))
+		for i, d := range et[1] {
+			tg[i] = int64(d)
+		}
+		expe, erre := ref.Expand(data, tg)
+		add("Expand", nil, []*ref.T{data, ref.I64Vec(tg...)}, expe, erre, true, "op", nil, fmt.Sprintf("long-rows %v->%v", et[0], et[1]), "large", "long-rows")
+	}
 	// Concat of many inputs (9, 12, 33), also of different extents on the axis
 	for _, n := range []int{9, 12, 33} {
 		for ax := 0; ax < 2; ax++ {
